@@ -295,6 +295,18 @@ def progOf : Variant → Iface → RProg
   | .patched, .fileInStdout => fixFileInStdout
   | .patched, .fileInFileOut => fixFileInFileOut
 
+/-- which of the two reviewed snapshots the CURRENT source is, according to the skeletons that the
+translator regenerates from cnfgen/utils/solver.py on every run (`none`: neither — the theorem
+`C20.source_is_a_reviewed_snapshot` fails) -/
+def sourceVariant : Option Variant :=
+  if Gen.solverProg_satsolve_stdin_stdout = docStdinStdout ∧
+     Gen.solverProg_satsolve_filein_stdout = docFileInStdout ∧
+     Gen.solverProg_satsolve_filein_fileout = docFileInFileOut then some .current
+  else if Gen.solverProg_satsolve_stdin_stdout = docStdinStdout ∧
+     Gen.solverProg_satsolve_filein_stdout = fixFileInStdout ∧
+     Gen.solverProg_satsolve_filein_fileout = fixFileInFileOut then some .patched
+  else none
+
 /-! ### a call of an interface function -/
 
 /-- what the caller and the file system see after the call -/
